@@ -16,9 +16,16 @@ BatchO(e) == [alive |-> e.alive, flushes |-> Len(e.flushes),
 
 CheckAll(cl, pre) == \A k \in DOMAIN cl : Check(l, pre \o k, cl[k])
 
+HShapeC(e) == [t |-> "httpshape", era |-> e.c.era, method |-> e.c.method, hasId |-> e.c.hasId, idc |-> e.c.idc, params |-> e.c.params, json |-> e.c.json]
+HShapeO(e) == [count |-> e.count, otherResp |-> e.otherResp, lines |-> e.lines, code |-> e.code, alive |-> e.alive, panic |-> e.panic, status |-> e.status]
+HBatchC(e) == [t |-> "httpbatch", era |-> e.c.era, members |-> e.c.members, json |-> e.c.json]
+HBatchO(e) == [alive |-> e.alive, panic |-> e.panic, status |-> e.status, answered |-> e.answered, reuseOk |-> e.reuseOk]
+
 MNext == /\ l <= NLines /\ l' = l + 1
          /\ LET e == TraceLog[l] IN
-              IF e.c.t = "shape"
+              IF e.c.t = "httpshape" THEN CheckAll(W!HttpShapeClauses(HShapeC(e), HShapeO(e)), "Http")
+              ELSE IF e.c.t = "httpbatch" THEN CheckAll(W!HttpBatchClauses(HBatchC(e), HBatchO(e)), "Http")
+              ELSE IF e.c.t = "shape"
               THEN /\ CheckAll(W!ShapeClauses(ShapeC(e), ShapeO(e)), "")
                    /\ Check(l, "drift", [count |-> e.count, otherResp |-> e.otherResp, lines |-> e.lines,
                                          code |-> IF e.count = 1 THEN e.code ELSE 0, alive |-> e.alive] = W!ExpectedShape(ShapeC(e)))
